@@ -46,6 +46,26 @@ def process_result(
         txn_helper: Transaction helper for atomic operations
         get_backoff_fn: Function to get backoff period for retries
     """
+    # The stage was re-read after the task body returned. If the task or its
+    # stage reached a completed status meanwhile (typically CANCELED by a
+    # CancelStage handled while the task was executing), the late result must
+    # not overwrite that durable completion - e.g. a SUSPENDED result would
+    # turn a CANCELED stage back into SUSPENDED, a REDIRECT would re-arm it.
+    if task_model.status.is_complete or stage.status.is_complete:
+        logger.info(
+            "Dropping result %s of task %s: task is %s, stage is %s",
+            result.status,
+            task_model.name,
+            task_model.status,
+            stage.status,
+        )
+        txn_helper.execute_atomic(
+            source_message=message,
+            messages_to_push=[],
+            handler_name="RunTask",
+        )
+        return
+
     # Store outputs in stage (with defensive type checks for user-defined tasks)
     if result.context and isinstance(result.context, dict):
         stage.context.update(result.context)
